@@ -289,6 +289,44 @@ def check_identifiers(case):
             raise Fail(f'single identifier {v!r}', 'notation')
 
 
+def check_fresh(case):
+    """Converted values are the caller's own: extending one in place (+=, .items) does not show in
+    what the same conversion, or any other helper, returns next."""
+    from dznpy.cpp_gen import fqn_t
+    from dznpy.scoping import (NamespaceIds, NamespaceTree, namespaceids_t, ns_ids_t,
+                               scope_resolution_order, sum_namespaceids_items)
+    ids = list(case['ids'])
+    forms = [list(ids), '.'.join(ids), '::'.join(ids)] if len(ids) != 1 else [list(ids), ids[0]]
+    if not ids:
+        forms = [[], '']
+    makers = [('namespaceids_t', namespaceids_t), ('ns_ids_t', ns_ids_t),
+              ('fqn_t(..).ns_ids', lambda v: fqn_t(v).ns_ids),
+              ('sum_namespaceids_items', lambda v: sum_namespaceids_items([namespaceids_t(v)])),
+              ('scope_resolution_order[-1]',
+               lambda v: scope_resolution_order(namespaceids_t(v), NamespaceIds(['s']))[-1]),
+              ('NamespaceTree().fqn_member_name', lambda v: NamespaceTree().fqn_member_name(
+                  namespaceids_t(v))),
+              ('NamespaceTree().fqn + x', lambda v: NamespaceTree().fqn + namespaceids_t(v))]
+    for form in forms:
+        for label, make in makers:
+            src = list(form) if isinstance(form, list) else form
+            first = make(src)
+            if first.items != ids:
+                raise Fail(f'{label}({form!r}) gives {first.items}, want {ids}', 'fresh-value')
+            if case['how'] == 'iadd':
+                first += NamespaceIds(['polluted'])
+            else:
+                first.items.append('polluted')
+            again = make(list(form) if isinstance(form, list) else form)
+            if again.items != ids:
+                raise Fail(f'{label}({form!r}) gives {again.items} after an earlier result of the '
+                           f'same call was extended in place (want {ids})', 'shared-result')
+    if NamespaceTree().fqn.items != [] or namespaceids_t('').items != [] or \
+            namespaceids_t([]).items != []:
+        raise Fail('the empty name is no longer empty after results were extended in place',
+                   'shared-result')
+
+
 def check_ops(case):
     from dznpy.scoping import (NamespaceIds, NamespaceTree, namespaceids_t, sum_namespaceids_items)
     parts = [list(p) for p in case['parts']]
@@ -357,6 +395,10 @@ def run(ctx):
                ctx.n(3000, 300000),
                nontrivial=lambda c: isinstance(c['value'], (str, list)) and len(c['value']) >= 2,
                labels=lambda c: ['ident', type(c['value']).__name__])
+    ctx.clause('fresh_values', st.fixed_dictionaries({
+        'ids': st.lists(st.sampled_from(['a', 'b', 'My', 'x_1', 'Dzn']), max_size=3),
+        'how': st.sampled_from(['iadd', 'append'])}), check_fresh, ctx.n(400, 20000),
+        nontrivial=lambda c: True, labels=lambda c: ['fresh', f'ids={len(c["ids"])}'])
     ctx.clause('ops', st.fixed_dictionaries({'parts': st.lists(idl, max_size=4)}), check_ops,
                ctx.n(1000, 50000), nontrivial=lambda c: len(c['parts']) >= 2,
                labels=lambda c: ['ops'])
